@@ -688,6 +688,61 @@ def run_continuous(res, tier, rng, nap, PF):
             res.sample({"op": "compute_perievent_continuous", "ts": ts, "tref": tr, "ep": ep, "minmax": [w0, w1], "row_times": got_t, "columns": got_c})
 
 
+def run_continuous_kernel(res, tier, rng, PF):
+    """_perievent_continuous (kernel + scatter) on IRREGULAR sampling (duplicates incl.): index-level statement and model"""
+    cases = []
+    for _ in range(400 if tier == "quick" else 4000):
+        n = rng.randint(1, 12)
+        ts = sorted(rng.randrange(0, 24) * U for _ in range(n))
+        m = rng.randint(1, 3)
+        cuts = sorted(rng.sample(range(0, 26), 2 * m))
+        ep = [(cuts[2 * i] * U, cuts[2 * i + 1] * U) for i in range(m)]
+        if not G.canonical(ep):
+            continue
+        tr = sorted(rng.randrange(0, 26) * U for _ in range(rng.randint(0, 5)))
+        cases.append((ts, tr, ep, rng.randint(0, 4), rng.randint(0, 4)))
+    lines = []
+    for ts, tr, ep, n0, n1 in cases:
+        vs = list(range(10, 10 + len(ts)))
+        lines.append("pc_columns\t%s\t%s\t%s\t%s\t%d\t%d" % (C.fmt_ints(ts), C.fmt_ints(vs), C.fmt_ints(tr), C.fmt_iset(ep), n0, n1))
+        lines.append("pc_spec\t%s\t%s\t%s\t%s\t%d\t%d" % (C.fmt_ints(ts), C.fmt_ints(vs), C.fmt_ints(tr), C.fmt_iset(ep), n0, n1))
+    mout = C.run_model(lines, driver="driver_c16")
+    for n, (ts, tr, ep, n0, n1) in enumerate(cases):
+        vs = list(range(10, 10 + len(ts)))
+        inp = {"ts": ts, "values": vs, "tref": tr, "ep": ep, "windowsize": [n0, n1]}
+        res.case(("pk", tuple(ts), tuple(tr), tuple(ep), n0, n1), nontrivial=any(s <= r <= e for s, e in ep for r in tr))
+        res.count("cont_kernel_irregular_sampling")
+        if len(set(ts)) < len(ts):
+            res.count("cont_kernel_duplicate_sample_times")
+        # statement at index level
+        exp = []
+        for s, e in ep:
+            I = [i for i, t in enumerate(ts) if s <= t <= e]
+            for r in tr:
+                if s <= r <= e:
+                    if not I:
+                        exp.append([[None] * (n0 + n1 + 1)])
+                        continue
+                    dmin = min(abs(ts[i] - r) for i in I)
+                    exp.append([[vs[p + o] if (p + o) in I else None for o in range(-n0, n1 + 1)] for p in I if abs(ts[p] - r) == dmin])
+        st, en = G.arr([s for s, _ in ep]), G.arr([e for _, e in ep])
+        try:
+            out = PF._perievent_continuous(G.arr(ts), np.asarray(vs, dtype=float), G.arr(tr), st, en, np.array([n0, n1]))
+        except Exception as ex:
+            res.violations.append({"key": {"op": "_perievent_continuous", "part": "exception"}, "what": "raised " + type(ex).__name__ + ": " + str(ex)[:100], "input": inp})
+            continue
+        got = [[None if np.isnan(v) else int(v) for v in out[:, j]] for j in range(out.shape[1])]
+        if not (len(got) == len(exp) and all(c in acc for c, acc in zip(got, exp))):
+            res.violations.append({"key": {"op": "_perievent_continuous", "part": "values"},
+                                   "what": "column j, row o is not the sample o steps from the sample nearest r_j within its epoch (NaN outside the epoch)",
+                                   "input": inp, "impl": got, "expected": exp})
+        mc, ms = parse_cols(mout[2 * n]), parse_cols(mout[2 * n + 1])
+        if got != mc:
+            res.disagreements.append({"op": "_perievent_continuous", "input": inp, "impl": got, "model": mc})
+        if mc != ms:
+            res.disagreements.append({"op": "pc_columns(model) vs pc_spec(model)", "input": inp, "model": mc, "spec": ms})
+
+
 def run(res, tier, seed):
     nap, CG, PF = _nap()
     warnings.simplefilter("ignore")
@@ -698,14 +753,15 @@ def run(res, tier, seed):
                 "(2) compute_auto/cross/event-correlogram through the public API: 3-member groups (empty members, coincident spikes) on the dyadic half-bin lattice x 5 (b, w) x ep none/1/2/3 epochs "
                 "x norm x reverse x units s/ms/us x TsGroup or pair of groups, + random decimal-lattice trains with forced edge lags (float_ambiguous only there); counts recovered as integers; "
                 "(3) compute_perievent: ALL (<=4 samples with duplicates, <=2 reference times on the half lattice) x 6 symmetric/asymmetric/one-sided windows incl. samples exactly on either window edge, "
-                "Ts/Tsd/TsGroup, units, minmax as tuple/negative tuple/scalar; (4) compute_perievent_continuous + _jitcontinuous_perievent: regular series of 2..7 samples x epochs (default, 1, 2) x "
+                "Ts/Tsd/TsGroup, units, minmax as tuple/negative tuple/scalar; (4) compute_perievent_continuous + _jitcontinuous_perievent: regular series of 2/3/5/7 samples x epochs (default + <=29 sampled 1- and 2-interval sets with ends on the half lattice) x "
                 "<=2 events on the half lattice (midway ties, on samples, outside epochs) x 6 windows (not multiples of the step, one-sided, asymmetric), + random series with 1-3 epochs and holes; Tsd and "
-                "TsdFrame. Each compared with the extracted model AND the brute-force statement. non-trivial = at least one pair in a bin / window cuts the data / a window truncated by an epoch edge")
+                "TsdFrame; _perievent_continuous on irregular sampling with duplicate sample times. `exhaustive` refers to spaces (1) and (3) in the thorough tier; (2) and (4) are seeded samples of their products. Each compared with the extracted model AND the brute-force statement. non-trivial = at least one pair in a bin / window cuts the data / a window truncated by an epoch edge")
     res.exhaustive = tier == "thorough"
     run_kernel(res, tier, rng, CG)
     run_public_corr(res, tier, rng, nap)
     run_perievent(res, tier, rng, nap)
     run_continuous(res, tier, rng, nap, PF)
+    run_continuous_kernel(res, tier, rng, PF)
 
 
 def search(res, seed):
@@ -734,7 +790,18 @@ def replay(payload):
         ts, tr, (w0, w1) = inp["ts"], inp["tref"], inp["minmax"]
         big = nap.IntervalSet(-1.0, 1.0)
         x = nap.Tsd(G.arr(ts), np.arange(len(ts)) + 100.0, time_support=big)
-        pe = nap.compute_perievent(x, nap.Ts(G.arr(tr), time_support=big), (w0 / 1e9, w1 / 1e9))
+        if inp.get("container") == "TsdFrame":
+            x = nap.TsdFrame(G.arr(ts), np.arange(2.0 * len(ts)).reshape(len(ts), 2), time_support=big)
+        if inp.get("container") == "TsdTensor":
+            x = nap.TsdTensor(G.arr(ts), np.arange(4.0 * len(ts)).reshape(len(ts), 2, 2), time_support=big)
+        try:
+            pe = nap.compute_perievent(x, nap.Ts(G.arr(tr), time_support=big), (w0 / 1e9, w1 / 1e9))
+        except Exception as ex:
+            print("impl raised", type(ex).__name__, ex)
+            return 1
+        if "container" in inp:
+            print("impl lags", [[C.to_ns(q) for q in pe[i].t] for i in range(len(tr))])
+            return 0
         got = [(tr[i], list(zip([C.to_ns(q) for q in pe[i].t], [int(q) for q in pe[i].values]))) for i in range(len(tr))]
         exp = o_perievent(ts, list(range(100, 100 + len(ts))), tr, w0, w1)
         print("impl", got, "expected", exp)
@@ -756,6 +823,55 @@ def replay(payload):
         ok = got_t == offs and len(got_c) == len(ocols) and all(c in acc for c, acc in zip(got_c, ocols))
         return 0 if ok else 1
     if "members" in inp:
-        print("correlogram replay: rebuild the group from `members` (ticks/1e9 s), group_support, ep, binsize, windowsize, norm, reverse, units and call", op)
-        return 1
+        keys = sorted(int(k) for k in inp["members"])
+        mem = [inp["members"].get(k, inp["members"].get(str(k))) for k in keys]
+        b, w, ep, norm, reverse, un = inp["binsize"], inp["windowsize"], inp["ep"], inp["norm"], inp.get("reverse", False), inp.get("units", "s")
+        uf = dict(UNITS)[un]
+        lat_sup = [tuple(x) for x in inp["group_support"]]
+        ep = [tuple(x) for x in ep] if ep else None
+        supo = mk_ep(nap, lat_sup)
+        grp = nap.TsGroup({k: nap.Ts(G.arr(m), time_support=supo) for k, m in zip(keys, mem)}, time_support=supo)
+        epk = {"ep": mk_ep(nap, ep)} if ep else {}
+        eff = ep if ep else lat_sup
+        rm = [restrict(m, eff) for m in mem]
+        T = tot(eff) / 1e9
+        bad = 0
+        if "auto" in op:
+            df = nap.compute_autocorrelogram(grp, b / uf, w / uf, norm=norm, time_units=un, **epk)
+            for k, m in zip(keys, rm):
+                if m:
+                    got = recover(df[k].values, len(m) * b / 1e9 * ((len(m) / T) if norm else 1.0))
+                    print("member", k, "impl", got, "expected", o_auto(m, b, w))
+                    bad += got != o_auto(m, b, w)
+        elif "event" in op:
+            ev_sup = [tuple(x) for x in inp.get("event_support", lat_sup)]
+            evo = nap.Ts(G.arr(inp["event"]), time_support=mk_ep(nap, ev_sup))
+            eeff = ep if ep else ev_sup
+            rev = restrict(restrict(inp["event"], ev_sup), eeff)
+            df = nap.compute_eventcorrelogram(grp, evo, b / uf, w / uf, norm=norm, time_units=un, **epk)
+            for k, m0 in zip(keys, mem):
+                m = restrict(m0, eeff)
+                if rev and (m or not norm):
+                    got = recover(df[k].values, len(rev) * b / 1e9 * ((len(m) / (tot(eeff) / 1e9)) if norm else 1.0))
+                    print("member", k, "impl", got, "expected", o_hist(rev, m, b, w))
+                    bad += got != o_hist(rev, m, b, w)
+        else:
+            df = nap.compute_crosscorrelogram(grp, b / uf, w / uf, norm=norm, time_units=un, reverse=reverse, **epk)
+            for lab in df.columns:
+                a, c2 = keys.index(lab[0]), keys.index(lab[1])
+                if rm[a] and (rm[c2] or not norm):
+                    got = recover(df[lab].values, len(rm[a]) * b / 1e9 * ((len(rm[c2]) / T) if norm else 1.0))
+                    print("pair (reference, target)", lab, "impl", got, "expected", o_hist(rm[a], rm[c2], b, w))
+                    bad += got != o_hist(rm[a], rm[c2], b, w)
+        print("row labels", [C.to_ns(x) for x in df.index.values], "expected", o_centres(b, w))
+        bad += [C.to_ns(x) for x in df.index.values] != o_centres(b, w)
+        return 1 if bad else 0
+    if "t" in inp and "binsize" in inp:
+        sup = nap.IntervalSet(-1.0, 1.0)
+        grp = nap.TsGroup({0: nap.Ts(G.arr(inp["t"]), time_support=sup)}, time_support=sup)
+        df = nap.compute_autocorrelogram(grp, inp["binsize"] / 1e9, inp["windowsize"] / 1e9, norm=False)
+        got = [[C.to_ns(x) for x in df.index.values], recover(df[0].values, len(inp["t"]) * inp["binsize"] / 1e9)]
+        exp = [o_centres(inp["binsize"], inp["windowsize"]), o_auto(inp["t"], inp["binsize"], inp["windowsize"])]
+        print("impl", got, "expected", exp)
+        return 0 if got == exp else 1
     return 1
